@@ -284,6 +284,14 @@ func (e *emitter) call(c *ast.CallExpr) bool {
 		}
 		return true
 	case "writeln":
+		// a constant line is part of the emitted literal (a frame line written without formatting); anything else is
+		// user or runtime code text, which the skeleton does not contain
+		if len(c.Args) == 1 {
+			if f, ok := e.stringOf(c.Args[0]); ok {
+				e.sb.WriteString(f)
+				e.sb.WriteString("\n")
+			}
+		}
 		return true
 	}
 	if r, ok := e.subst[s.Sel.Name]; ok {
